@@ -1,4 +1,243 @@
-import Sio.Model.Server
+/-
+  C06 — server-initiated acknowledgements: the id on an emit-with-callback is unique among the
+  client's outstanding callbacks and larger than every id handed to it before; a callback fires at
+  most once, only for an ACK from the transport + namespace that resolves to the session it was
+  registered for, with the acknowledged arguments; other ACKs are inert; nothing fires after the
+  disconnect; `call()` returns what was acknowledged during its wait or times out.
+
+  All statements are about `Sio.Server.step` / `run` (model of server.py, base_manager.py,
+  manager.py), for every decoder `dec`, configuration and handler script, from every well-formed
+  state `Server.WF s` — an invariant of all reachable states (`reachable_wf`).
+-/
+import Sio.Lemmas.ServerAck
 namespace Sio.C06
-theorem placeholder_stub : True := trivial
+open Sio Sio.Server Sio.Rooms
+
+variable {dec : Str → Except Err (Packet × Nat)} {cfg : Cfg}
+
+/-- states reachable from the initial state by any history -/
+def Reachable (dec : Str → Except Err (Packet × Nat)) (cfg : Cfg) (s : Srv) : Prop :=
+  ∃ is : List Input, s = (run dec cfg {} is).1
+
+/-- every reachable state is well formed (unbounded histories, any decoder / config / script) -/
+theorem reachable_wf {s : Srv} (h : Reachable dec cfg s) : Server.WF s ∧ Calls s := by
+  obtain ⟨is, rfl⟩ := h
+  exact ⟨Server.WF.init.run dec cfg is, Calls.run Server.WF.init Calls.init dec cfg is⟩
+
+/-! ### a concrete non-trivial state for the non-vacuity examples
+
+two transports, each connected to `/`; an emit with callback 7 to the first session -/
+
+def reg0 : Registry := ⟨fun _ _ => true, fun _ => true, fun _ => false, fun _ _ => false⟩
+def cfg0 : Cfg := ⟨false, none, true, reg0, ⟨fun _ => .accept, fun _ => .ret .none, fun _ => .ok⟩⟩
+/-- a toy decoder: "c" is CONNECT, "a" is ACK id 1 `["x"]`, "b" is ACK id 9, anything else fails -/
+def dec0 : Str → Except Err (Packet × Nat)
+  | ['c'] => .ok (⟨CONNECT, none, none, none⟩, 0)
+  | ['a'] => .ok (⟨ACK, none, some 1, some (.arr [.str ['x']])⟩, 0)
+  | ['b'] => .ok (⟨ACK, none, some 9, some (.arr [])⟩, 0)
+  | _ => .error .valueError
+def tA : Eio := ['A']
+def tB : Eio := ['B']
+def nsRoot : Ns := ['/']
+def hist0 : List Input :=
+  [.eioConnect tA, .eioConnect tB, .frame tA (.str ['c']), .frame tB (.str ['c'])]
+def demo0 : Srv := (run dec0 cfg0 {} hist0).1
+def demo1 : Srv := (step dec0 cfg0 demo0 (.emit ['e'] .none nsRoot (.one (sidName 0)) [] (some 7))).1
+
+theorem demo0_wf : Server.WF demo0 := Server.WF.init.run dec0 cfg0 hist0
+theorem demo1_wf : Server.WF demo1 := demo0_wf.step dec0 cfg0 _
+
+/-! ### `id_unique` -/
+
+/-- Emitting with a callback to exactly one recipient `sid` (on transport `t`): the event carries
+    the id `counter sid + 1`, which is strictly greater than the id of every outstanding callback
+    of `sid`; the callback is registered under it, the counter becomes that id, and the
+    outstanding `(sid, id)` pairs stay pairwise distinct. -/
+theorem id_unique {s : Srv} (h : Server.WF s) (ev : Str) (d : Data) (ns : Ns) (to : Target)
+    (skip : List Sid) (tok : CbTok) {sid : Sid} {t : Eio}
+    (hn : hasNs s.rooms ns = true) (hr : recipients s.rooms ns to skip = [(sid, t)]) :
+    emit s ev d ns to skip (some tok) =
+        (addCb s sid tok,
+          sendTo s (some t) (mkOut EVENT ns (some (ctrOf s.ctr sid + 1)) (J.str ev :: d.pack))) ∧
+      (addCb s sid tok).cbs = s.cbs ++ [(sid, ctrOf s.ctr sid + 1, tok)] ∧
+      (∀ c ∈ s.cbs, c.1 = sid → c.2.1 < ctrOf s.ctr sid + 1) ∧
+      ctrOf (addCb s sid tok).ctr sid = ctrOf s.ctr sid + 1 ∧
+      ((addCb s sid tok).cbs.map (fun c => (c.1, c.2.1))).Nodup := by
+  refine ⟨?_, ?_, ?_, ?_, ?_⟩
+  · rw [emit_cb_eq, hr]
+    simp only [hn, Bool.not_true, Bool.false_eq_true, if_false, List.foldl_cons, List.foldl_nil,
+      emitOne, List.nil_append, nextAckId_eq]
+    congr 1
+  · simp only [addCb, nextAckId_eq]
+  · intro c hc hs
+    have := (h.cbsLe c hc).2
+    rw [hs] at this; omega
+  · simp [addCb, ctrOf_setCtr, nextAckId_eq]
+  · have hl : sidLive s.rooms sid :=
+      recipients_live h.rooms (p := (sid, t)) (by rw [hr]; simp)
+    exact (h.toWF0.addCb hl tok).cbsNodup
+
+example : hasNs demo0.rooms nsRoot = true ∧
+    recipients demo0.rooms nsRoot (.one (sidName 0)) [] = [(sidName 0, tA)] := by decide
+
+/-- In every well-formed (hence every reachable) state the outstanding `(sid, id)` pairs are
+    pairwise distinct and every outstanding id is at most the session's counter. -/
+theorem outstanding_unique {s : Srv} (h : Server.WF s) :
+    (s.cbs.map (fun c => (c.1, c.2.1))).Nodup ∧ ∀ c ∈ s.cbs, 1 ≤ c.2.1 ∧ c.2.1 ≤ ctrOf s.ctr c.1 :=
+  ⟨h.cbsNodup, h.cbsLe⟩
+
+/-- Over any history, as long as the session is connected its counter does not decrease: an id
+    handed out later (`counter + 1` at that time) is strictly greater than every id handed out
+    earlier. -/
+theorem id_increasing {s : Srv} (h : Server.WF s) (is : List Input) (sid : Sid)
+    (hl : sidLive (run dec cfg s is).1.rooms sid) :
+    ctrOf s.ctr sid < ctrOf (run dec cfg s is).1.ctr sid + 1 :=
+  Nat.lt_succ_of_le (ctr_mono h dec cfg is sid hl)
+
+example : sidLive (run dec0 cfg0 demo1 [.frame tB (.str ['a'])]).1.rooms (sidName 0) :=
+  ⟨nsRoot, tA, by decide⟩
+
+/-! ### `callback_only_on_matching_ack`, at most once -/
+
+/-- A `callback n args` in the output of a frame step: the frame (from transport `t`) completes an
+    ACK `(nsp, id, data)`, the session `sid` that `t` has on that namespace has `(sid, id, n)`
+    outstanding, `args` are the ACK's arguments, the callback is the only output and the entry is
+    popped. -/
+theorem callback_only_on_matching_ack {s : Srv} (h : Server.WF s) {t : Eio} {v : J} {n : Nat}
+    {args : List J} (hm : Out.callback n args ∈ (step dec cfg s (.frame t v)).2) :
+    ∃ nsp id data s₀ sid i, CompletesAck dec s t v nsp id data s₀ ∧
+      sidOf s.rooms (nsp.getD ['/']) t = some sid ∧ id = some i ∧
+      (sid, i, CbTok.user n) ∈ s.cbs ∧ starArgs data = .ok args ∧
+      step dec cfg s (.frame t v) = (popCb s₀ sid i, [.callback n args]) := by
+  rw [step] at hm ⊢
+  exact fires_of_frame h hm
+
+example : Out.callback 7 [.str ['x']] ∈ (step dec0 cfg0 demo1 (.frame tA (.str ['a']))).2 := by
+  have : (step dec0 cfg0 demo1 (.frame tA (.str ['a']))).2 = [Out.callback 7 [.str ['x']]] := by rfl
+  rw [this]; simp
+
+/-- Over any history (frames inside the wait of a `call()` included) every `callback` output is
+    produced by a frame, handled in a well-formed state `s₀`, that completes a matching ACK. -/
+theorem callback_only_from_frames {s : Srv} (h : Server.WF s) (is : List Input) {n : Nat} {args : List J}
+    (hm : Out.callback n args ∈ (run dec cfg s is).2) :
+    ∃ s₀ t v, FrameAt dec cfg s is s₀ t v ∧ Server.WF s₀ ∧ Fires dec cfg s₀ t v n args :=
+  (callback_source dec cfg).2 s is h n args hm
+
+/-- After the callback fired, `(sid, id)` is not outstanding any more … -/
+theorem popped {s : Srv} (sid : Sid) (i : Nat) : ∀ tok, (sid, i, tok) ∉ (popCb s sid i).cbs := by
+  intro tok hm
+  simp [popCb] at hm
+
+/-- A frame that completes an ACK whose `(sid, id)` is not outstanding — never issued, already
+    used, issued to another client or on another namespace, id 0 included — outputs nothing and
+    leaves the state unchanged (a completed BINARY_ACK only leaves the reassembly buffer). -/
+theorem foreign_ack_inert {s s₀ : Srv} {t : Eio} {v : J} {nsp : Option Str} {id : Option Nat}
+    {data : Option J} (hc : CompletesAck dec s t v nsp id data s₀)
+    (hf : ∀ sid i, sidOf s.rooms (nsp.getD ['/']) t = some sid → id = some i →
+      ∀ tok, (sid, i, tok) ∉ s.cbs) :
+    step dec cfg s (.frame t v) = (s₀, []) ∧ (s₀ = s ∨ s₀ = dropBin s t) := by
+  rw [step, handleFrame_of_completesAck cfg hc]
+  refine ⟨handleAck_inert ?_, hc.state⟩
+  rw [hc.rooms.1, hc.rooms.2]; exact hf
+
+/-- … so a second identical ACK is inert: at most once. -/
+theorem at_most_once {s s₀ s₁ : Srv} {t : Eio} {v : J} {nsp : Option Str} {data : Option J}
+    {sid : Sid} {i : Nat} (hs : sidOf s.rooms (nsp.getD ['/']) t = some sid)
+    (hc : CompletesAck dec (popCb s₀ sid i) t v nsp (some i) data s₁)
+    (hr : (popCb s₀ sid i).rooms = s.rooms) :
+    step dec cfg (popCb s₀ sid i) (.frame t v) = (s₁, []) := by
+  refine (foreign_ack_inert hc ?_).1
+  intro sid' i' h1 h2 tok
+  rw [hr, hs] at h1
+  cases h1; cases h2
+  exact popped sid i tok
+
+-- the ACK for id 9 from transport A, and the ACK for id 1 from the *other* transport B, are foreign
+example : CompletesAck dec0 demo1 tA (.str ['b']) none (some 9) (some (.arr [])) demo1 :=
+  .text (p := ⟨ACK, none, some 9, some (.arr [])⟩) (n := 0) (by decide) rfl rfl
+example : sidOf demo1.rooms nsRoot tB = some (sidName 1) ∧
+    demo1.cbs.all (fun c => !(c.1 == sidName 1 && c.2.1 == 1)) = true := by decide
+
+/-! ### `none_after_disconnect` -/
+
+/-- `basic_disconnect` erases the session's callbacks and its counter … -/
+theorem none_after_disconnect (s : Srv) (sid : Sid) (ns : Ns) :
+    (∀ c ∈ (mgrDisconnect s sid ns).cbs, c.1 ≠ sid) ∧
+    (∀ c ∈ (mgrDisconnect s sid ns).ctr, c.1 ≠ sid) := by
+  constructor <;> intro c hc <;> simp [mgrDisconnect] at hc <;> exact hc.2
+
+/-- … and since session ids are never reused, no later state of any history has a callback for
+    it (so nothing can fire: firing needs an outstanding entry of a connected session). -/
+theorem none_after_disconnect_history {s : Srv} (h : Server.WF s) {sid : Sid} {ns : Ns} {t : Eio}
+    (he : eioOf s.rooms ns sid = some t) (k : Nat) (is : List Input) :
+    ∀ c ∈ (run dec cfg (ending s sid ns k) is).1.cbs, c.1 ≠ sid := by
+  have hw := (Reach.ending h he k).wf h
+  obtain ⟨j, hj, hs⟩ := h.sidAlloc _ (eioOf_some_mem he)
+  simp only at hs
+  subst hs
+  have hd : Dead j (ending s (sidName j) ns k) :=
+    ⟨hj, not_sidLive_disconnect h.toWF0 he⟩
+  have hd' := hd.run hw dec cfg is
+  intro c hc heq
+  have := (hw.run dec cfg is).cbsLive c hc
+  rw [heq] at this
+  exact hd'.2 this
+
+example : eioOf demo1.rooms nsRoot (sidName 0) = some tA := by decide
+
+/-! ### `call_result` -/
+
+/-- `call()` (needs `async_handlers`): emit with an internal callback, run the history that
+    happens during the wait; the result is `callResult args` for the first result `(n, args)`
+    delivered *during the wait* to this call's number `n`, otherwise `TimeoutError`.  (Results are
+    delivered only by `_handle_ack` popping the internal callback — `Prim.callDone`.) -/
+theorem call_result {s : Srv} (h : Server.WF s) (hc : Calls s) (ha : cfg.asyncHandlers = true)
+    (ev : Str) (d : Data) (ns : Ns) (sid : Sid) (during : List Input) :
+    ∃ l, (run dec cfg (callStart s ev d ns sid).1 during).1.callDone = s.callDone ++ l ∧
+      step dec cfg s (.call ev d ns sid during) =
+        ((run dec cfg (callStart s ev d ns sid).1 during).1,
+          (callStart s ev d ns sid).2 ++ (run dec cfg (callStart s ev d ns sid).1 during).2 ++
+            [match l.find? (fun c => c.1 = s.nCall) with
+              | some c => .result (callResult c.2)
+              | none => .timeout]) := by
+  obtain ⟨l, hl⟩ := DoneGrows.run (h.callStart ev d ns sid) dec cfg during
+  have h0 : (callStart s ev d ns sid).1.callDone = s.callDone := callStart_callDone s ev d ns sid
+  rw [h0] at hl
+  refine ⟨l, hl, ?_⟩
+  rw [step_call]
+  simp only [ha, Bool.not_true, Bool.false_eq_true, if_false]
+  congr 2
+  unfold callOutcome
+  rw [hl, List.find?_append]
+  have : s.callDone.find? (fun c => c.1 = s.nCall) = none := by
+    rw [List.find?_eq_none]
+    intro c hcm
+    have := hc.done c hcm
+    simp; omega
+  rw [this]; rfl
+
+/-- A frame step delivers a `call()` result (appends to `callDone`) only when the frame completes
+    an ACK `(nsp, id, data)` such that the session the transport has on that namespace has the
+    internal callback `(sid, id, call n)` outstanding; the delivered arguments are the ACK's. -/
+theorem call_delivery_only_on_matching_ack (s : Srv) (t : Eio) (v : J) :
+    (step dec cfg s (.frame t v)).1.callDone = s.callDone ∨
+    ∃ n args nsp id data s₀ sid i, CompletesAck dec s t v nsp id data s₀ ∧
+      sidOf s.rooms (nsp.getD ['/']) t = some sid ∧ id = some i ∧
+      (sid, i, CbTok.call n) ∈ s.cbs ∧ starArgs data = .ok args ∧
+      (step dec cfg s (.frame t v)).1.callDone = s.callDone ++ [(n, args)] := by
+  rw [step]
+  rcases callDone_of_frame (dec := dec) (cfg := cfg) (s := s) t v with h | ⟨n, args, h⟩
+  · exact Or.inl h
+  · exact Or.inr ⟨n, args, h⟩
+
+/-- with synchronous handlers `call()` refuses to run -/
+theorem call_needs_async {s : Srv} (ha : cfg.asyncHandlers = false) (ev : Str) (d : Data) (ns : Ns)
+    (sid : Sid) (during : List Input) :
+    step dec cfg s (.call ev d ns sid during) = (s, [.raised .other]) := by
+  rw [step_call]; simp [ha]
+
+example : (step dec0 cfg0 demo0 (.call ['e'] .none nsRoot (sidName 0) [.frame tA (.str ['a'])])).2
+    = [.send tA (mkOut EVENT nsRoot (some 1) [.str ['e']]), .result (.str ['x'])] := by
+  rfl
+
 end Sio.C06
